@@ -105,69 +105,64 @@ func Try(a app.App, ctx app.IOContext) (err error) {
 		return err
 	}
 	go func() {
-		var catchErr error
+		var (
+			catchErr      error
+			handlerScopes []app.Scope
+		)
 		defer parentScope.DoneTask()
 		catchErr = separatedScope.Wait()
-		// run finally
-		if deps.FinallyBody != "" {
-			if err = deps.Runner.Run(pipservices.Pip{
+		// Every handler runs in its own scope: a failed handler must not stop
+		// (or prevent the start of) the other handlers. Handlers errors are
+		// reported to the parent scope when all of them are finished.
+		runHandler := func(name, body, description string) bool {
+			handlerScope := scope.New(scope.Params{
+				DataScope:  parentScope,
+				EventScope: parentScope,
+				Injector:   injector.NewMultiInjector([]app.Injector{parentScope}),
+			})
+			if runErr := deps.Runner.Run(pipservices.Pip{
 				Context: pipservices.PipContext{
-					In:    gio.NewInput(strings.NewReader(deps.FinallyBody)),
+					In:    gio.NewInput(strings.NewReader(body)),
 					Out:   out,
 					Err:   erro,
 					CWD:   ctxIO.CWD(),
-					Scope: parentScope,
+					Scope: handlerScope,
 				},
-				Name:        "finally",
-				Description: "",
+				Name:        name,
+				Description: description,
 				Namespaces:  scpNamespaces,
 				Sandbox:     "self", // only self sandbox is supported
 				Lock:        nil,    // lock is unsupported
 				Wait:        nil,    // wait is unsupported
-			}); err != nil {
-				parentScope.AppendError(err)
+			}); runErr != nil {
+				parentScope.AppendError(runErr)
+				return false
+			}
+			handlerScopes = append(handlerScopes, handlerScope)
+			return true
+		}
+		defer func() {
+			for _, handlerScope := range handlerScopes {
+				if handlerErr := handlerScope.Wait(); handlerErr != nil {
+					parentScope.AppendError(handlerErr)
+				}
+			}
+		}()
+		// run finally
+		if deps.FinallyBody != "" {
+			if !runHandler("finally", deps.FinallyBody, "") {
 				return
 			}
 		}
 		// run fail (if required)
 		if deps.FailBody != "" && catchErr != nil {
-			if err = deps.Runner.Run(pipservices.Pip{
-				Context: pipservices.PipContext{
-					In:    gio.NewInput(strings.NewReader(deps.FailBody)),
-					Out:   out,
-					Err:   erro,
-					CWD:   ctxIO.CWD(),
-					Scope: parentScope,
-				},
-				Name:        "fail",
-				Description: catchErr.Error(),
-				Namespaces:  scpNamespaces,
-				Sandbox:     "self", // only self sandbox is supported
-				Lock:        nil,    // lock is unsupported
-				Wait:        nil,    // wait is unsupported
-			}); err != nil {
-				parentScope.AppendError(err)
+			if !runHandler("fail", deps.FailBody, catchErr.Error()) {
 				return
 			}
 		}
 		// run success (if required)
 		if deps.SuccessBody != "" && catchErr == nil {
-			if err = deps.Runner.Run(pipservices.Pip{
-				Context: pipservices.PipContext{
-					In:    gio.NewInput(strings.NewReader(deps.SuccessBody)),
-					Out:   out,
-					Err:   erro,
-					CWD:   ctxIO.CWD(),
-					Scope: parentScope,
-				},
-				Name:        "success",
-				Description: "",
-				Namespaces:  scpNamespaces,
-				Sandbox:     "self", // only self sandbox is supported
-				Lock:        nil,    // lock is unsupported
-				Wait:        nil,    // wait is unsupported
-			}); err != nil {
-				parentScope.AppendError(err)
+			if !runHandler("success", deps.SuccessBody, "") {
 				return
 			}
 		}
